@@ -74,6 +74,8 @@ func (s State) String() string {
 		return "leader"
 	case Follower:
 		return "follower"
+	case PreCandidate:
+		return "pre-candidate"
 	case Candidate:
 		return "candidate"
 	case Shutdown:
